@@ -5,6 +5,7 @@ use std::io::{BufRead, Write};
 use std::panic::{AssertUnwindSafe, catch_unwind};
 
 mod util;
+mod c08;
 mod c14;
 mod c15;
 mod c20;
@@ -39,6 +40,7 @@ fn main() {
 
 fn dispatch(suite: &str, case: &Value) -> Value {
     match suite {
+        "c08" => c08::run(case),
         "c14" => c14::run(case),
         "c15" => c15::run(case),
         "c20" => c20::run(case),
